@@ -27,7 +27,10 @@ RULE = ("one case = one export_to + import_from round trip on a real project of 
         "string-prefix, trailing slash)}; import schema in {None, schema string derived from the layout (right and "
         "wrong types), callable}; listing order of os.listdir/os.scandir ascending or descending; optionally jobs "
         "already present in the importing project, optionally state point files stripped from the exported "
-        "directory.  Model (Coq) is run on the same input and compared on: exception classes, returned "
+        "directory.  Round 4 classes (after the earlier cases): falsy state points incl. the empty one {} for every kind; "
+        "format strings ending in a literal component with the schema string that describes them; a callable schema "
+        "wrong for the k-th exported directory; directory targets whose NAME holds a regex metacharacter.  "
+        "Model (Coq) is run on the same input and compared on: exception classes, returned "
         "destinations, the exported tree / archive members with bytes, the imported workspace tree with bytes.  "
         "non-trivial: >= 2 jobs; distinct by (state points, files, kind, path spec, schema, order, pre, strip)")
 TRUSTED = [
@@ -42,7 +45,8 @@ TRUSTED = [
 ASSUMPTIONS = [
     "no symbolic links; state point keys and values contain no '{' '}' and no key is called 'job' or 'auto'",
     "exported paths are relative (no state point value starts with '/'); at most three '..' components",
-    "schema strings and the paths they are matched against are ASCII without regex metacharacters other than '.'",
+    "schema strings and the paths BELOW the origin are ASCII without regex metacharacters other than '.'; the origin's "
+    "own name may hold them: whether it matches itself as a regular expression is a library fact carried by the case",
     "the process's current directory is deeper than any '..' occurring in an archive member name",
 ]
 
